@@ -169,6 +169,8 @@ def configs(tier):
         add(N=3, M=0, sym_prices=True, reward_kind=rk, fees=True)
     add(N=3, M=1, sym_prices=True, reward_kind="RewardSimpleReturn", latency="sym", free_kinds=["quote"])
     add(N=3, M=0, sym_prices=True, reward_kind="RewardSimpleReturn", sells=True, fees=True)
+    # a non-zero interest-rate path: recorded interest must be what the account was credited
+    add(N=3, M=0, sym_prices=True, reward_kind="RewardPnL", fees=True, concrete_grid=True, rate="sym", markup=0.01)
     if tier == "thorough":
         for rk in ("RewardSimpleReturn", "RewardPnL", "RewardLogReturn", "LogReturn"):
             add(N=4, M=0, sym_prices=True, reward_kind=rk, fees=True)
@@ -187,7 +189,9 @@ ASSUMPTIONS = _A + ["quote prices symbolic with 0 < bid <= ask in [1e-3, 1e6]; a
                     "0.1..0.4 (so NLV stays positive: ruin is C09)",
                     "np.log is an uninterpreted function (congruence, sign and monotonicity instantiated); "
                     "LogReturn(scale=0.5, clip=0.25, risk_aversion=0.5)",
-                    "interest rate book 0/0 (interest path of the ledger is exercised with value 0; C06 owns interest)"]
+                    "interest rate book 0/0 except in the 'rate' configuration (concrete daily grid, symbolic rate in "
+                    "[0, 0.2], markup 1%): there the ledger is fed with the *recorded* interest, so a record that "
+                    "disagrees with the cash actually credited is caught; the interest formula itself is C06"]
 BOUNDS = {"quick": "grid of 3 timesteps (2 executions), one spot contract, fees, 4 reward classes; one config with a "
                    "symbolic latency and an extra quote",
           "thorough": "grid of 4, two contracts, delay 1, latency + extra quote for every reward class"}
